@@ -8,6 +8,7 @@ import Driver.BerIO
 import Driver.CdrDumpIO
 import Driver.PeerIO
 import Driver.RecBerIO
+import Driver.AuthIO
 /-
   Line-protocol driver: one operation per input line, one canonical line per operation.
   The first token selects the stream (model); stateful streams keep their state in `DState`.
@@ -33,6 +34,7 @@ def step (s : DState) (line : String) : DState × String :=
   | "conv" :: t => (s, convOp t)
   | "ber" :: t => (s, berOp t)
   | "peer" :: t => (s, peerOp t)
+  | "auth" :: t => (s, authOp t)
   | "c03" :: t => (s, c03Op ("c03" :: t))
   | "config" :: t => (s, configOp t)
   | "diam" :: t => (s, diamOp t)
